@@ -228,6 +228,26 @@ func VerifC17NtimedResetState() {
 	v.Reach("C17.ntimedresetstate")
 }
 
+// the third sample since a reset, from a concrete two-sample history without noise (averages 1 ms / 1.5 ms /
+// 2 ms, limits exactly at the averages): whatever the sample - inside the limits, a one-sided or a two-sided
+// outlier - the output is its raw offset (the exact floating-point state keeps the query decidable)
+func VerifC17NtimedRawThird() {
+	c17clk()
+	c17epoch = 7
+	f := NewNtimedFilter(nil)
+	f.epoch = 7
+	f.alo, f.amid, f.ahi = 0.001, 0.0015, 0.002
+	f.alolo, f.ahihi = f.alo*f.alo, f.ahi*f.ahi
+	f.navg = 2
+	s := c17newSample()
+	got := f.Do(s.t0, s.t1, s.t2, s.t3)
+	lo := s.t0.Sub(s.t1).Seconds()
+	hi := s.t3.Sub(s.t2).Seconds()
+	want := timemath.Inv(timemath.Duration((lo + hi) / 2))
+	v.Assert(got == want, "C17.ntimed.third-sample-raw-offset")
+	v.Reach("C17.ntimedrawthird")
+}
+
 // while fewer than four samples have been seen since the last reset the output is the raw offset of
 // the sample: -(lo+hi)/2 converted to a duration, whatever the rest of the state holds
 func VerifC17NtimedRaw() {
